@@ -239,6 +239,29 @@ func (c *Ctx) ssaPkg(suffix string) *ssa.Package {
 
 // fn looks up a package-level function or method. recv is "" or "T" or "*T".
 func (c *Ctx) fn(pkgSuffix, recv, name string) *ssa.Function {
+	if f := c.fnIn(pkgSuffix, recv, name); f != nil {
+		return f
+	}
+	// moved to another package of the module: accept a unique match elsewhere
+	var found *ssa.Function
+	n := 0
+	for _, p := range c.ModPkgs {
+		suffix := strings.TrimPrefix(p.PkgPath, modPath)
+		if suffix == pkgSuffix {
+			continue
+		}
+		if f := c.fnIn(suffix, recv, name); f != nil {
+			found = f
+			n++
+		}
+	}
+	if n == 1 {
+		return found
+	}
+	return nil
+}
+
+func (c *Ctx) fnIn(pkgSuffix, recv, name string) *ssa.Function {
 	sp := c.ssaPkg(pkgSuffix)
 	if sp == nil {
 		return nil
@@ -270,12 +293,38 @@ func (c *Ctx) methodOf(t types.Type, name string) *ssa.Function {
 
 // namedType returns the named type pkgSuffix.name or nil.
 func (c *Ctx) namedType(pkgSuffix, name string) *types.Named {
+	if n := c.namedTypeIn(pkgSuffix, name); n != nil {
+		return n
+	}
+	// moved to another package of the module: accept a unique match elsewhere
+	var found *types.Named
+	k := 0
+	for _, p := range c.ModPkgs {
+		suffix := strings.TrimPrefix(p.PkgPath, modPath)
+		if suffix == pkgSuffix {
+			continue
+		}
+		if n := c.namedTypeIn(suffix, name); n != nil {
+			found = n
+			k++
+		}
+	}
+	if k == 1 {
+		return found
+	}
+	return nil
+}
+
+func (c *Ctx) namedTypeIn(pkgSuffix, name string) *types.Named {
 	p := c.pkg(pkgSuffix)
 	if p == nil {
 		return nil
 	}
 	o := p.Types.Scope().Lookup(name)
 	if o == nil {
+		return nil
+	}
+	if _, isType := o.(*types.TypeName); !isType {
 		return nil
 	}
 	n, _ := o.Type().(*types.Named)
